@@ -937,6 +937,16 @@ pub fn run(cx: &mut Cx) {
                                 let _ = e.verify_size(here).map_err(|e| e.to_string());
                                 let _ = e.verify_checksum(here, Digest::BLAKE2s).map_err(|e| e.to_string());
                                 let _ = e.verify_checksums("/nonexistent/x").len();
+                                // ... and on a small file that does exist and can be read
+                                // (whatever the entry records - absurd sizes included -
+                                // the answer is a mismatch, not a panic)
+                                for small in ["/etc/hostname", "/etc/passwd", "/proc/sys/kernel/ostype"] {
+                                    if std::path::Path::new(small).is_file() {
+                                        let _ = e.verify_size(small).map_err(|e| e.to_string());
+                                        let _ = e.verify_checksums(small).len();
+                                        break;
+                                    }
+                                }
                             }
                             let mut built = Distinfo::new();
                             built.set_rcsid(&std::ffi::OsString::from("$NetBSD: x $"));
